@@ -11,6 +11,7 @@ import math
 from fractions import Fraction as Fr
 
 from ..terms import (Poly, B, INF, TRUE, FALSE, ZERO, ONE, NAN, bconst, bnot, cmp_term, as_poly, inv_poly, t_div)
+from ..terms import t_min as t_min_, t_max as t_max_, PINF_ATOM as PINF_ATOM_
 from ..interp import (Interp, State, Num, BoolV, StructV, EnumV, TupleV, RefV, ContV, Opaque, UnitV, InterpError)
 from .common import *
 
@@ -151,8 +152,24 @@ def time_partitions(st, S, umax, min_fc):
 
 
 def limits_from_new(tmpl, ctx, S):
-    """(umax = max_fc/fs, min_fc) by role: umax from the design argument of the constructor's coefficients
-    (tan(pi*max_fc/fs)); min_fc is the documented 0.1 Hz (times above 10 s behave like 10 s)"""
+    """(umax = max_fc/fs, min_fc) by role: the constructor keeps the upper cutoff limit in the object as k*fs (a numeric
+    field proportional to the sample rate); if no such field exists, umax is read from the design argument of the
+    constructor's coefficients (tan(pi*max_fc/fs)).  min_fc is the documented 0.1 Hz (times above 10 s behave like 10 s)"""
+    sa = S.term.as_single_atom()
+    ks = []
+
+    def walk(v):
+        if isinstance(v, Num):
+            if len(v.term.t) == 1:
+                (m, k), = v.term.t.items()
+                if m == ((sa, 1),) and 0 < k <= Fr(1, 2):
+                    ks.append(k)
+        elif isinstance(v, StructV) and v.path != DF1 and not v.path.startswith('biquad::'):
+            for f in v.fields:
+                walk(f)
+    walk(tmpl)
+    if len(set(ks)) == 1:
+        return ks[0], facts_f32(0.1)
     lpf = find_lpf(tmpl)
     if lpf is None:
         return None, None
@@ -162,24 +179,7 @@ def limits_from_new(tmpl, ctx, S):
     c = tans[0][1].const_value()
     if c is None or c <= 0:
         return None, None
-    umax = c / PI32
-    # the constructor keeps the limit itself somewhere in the object as k*fs: use that exact k when it agrees with the design
-    sa = S.term.as_single_atom()
-
-    def walk(v):
-        if isinstance(v, Num):
-            if len(v.term.t) == 1:
-                (m, k), = v.term.t.items()
-                if m == ((sa, 1),) and abs(k - umax) <= umax * Fr(1, 10 ** 5):
-                    return k
-        elif isinstance(v, StructV) and v.path != DF1:
-            for f in v.fields:
-                r = walk(f)
-                if r is not None:
-                    return r
-        return None
-    exact = walk(tmpl)
-    return (exact if exact is not None else umax), facts_f32(0.1)
+    return c / PI32, facts_f32(0.1)
 
 
 def find_lpf(gp):
@@ -203,12 +203,31 @@ def check_glide(res, facts, prop):
     if tmpl is None:
         return
     umax, min_fc = limits_from_new(tmpl, ctx0, S)
-    res.ob('R-GLIDE', 'new(): fastest setting readable from the constructor design (tan(pi*max_fc/fs))', umax is not None,
+    res.ob('R-GLIDE', 'new(): fastest setting readable from the constructed object (limit k*fs) or its design (tan(pi*max_fc/fs))', umax is not None,
            'constructor coefficients %r' % (find_lpf(tmpl),), where_new, key='R-GLIDE:new-limits')
     if umax is None:
         return
     max_fc = S.term.scale(umax)
     res.extra['max_fc_over_fs'] = float(umax)
+    if prop == 'C14':
+        # the dead-band reference of a fresh processor: either a sentinel that no t >= 0 is close to (the first call is always
+        # honoured), or the time whose design the constructor actually installed
+        ct0 = tmpl.get('cached_t').term if 'cached_t' in tmpl.names else None
+        c0 = ct0.const_value() if ct0 is not None else None
+        ok0, why0 = False, 'cached_t after new() = %r' % (ct0,)
+        if ct0 is not None and ct0.inf_sign() == -1:
+            ok0, why0 = True, 'sentinel -inf'
+        elif c0 is not None and c0 < -DEAD:
+            ok0, why0 = True, 'sentinel %s: every t >= 0 is further than the dead band' % float(c0)
+        elif c0 is not None and c0 >= 0:
+            lpf0 = find_lpf(tmpl)
+            tans = [a for a in all_atoms_of(lpf0.get('coeffs')) if a[0] == 'tan'] if lpf0 is not None else []
+            inv_t = Poly.atom(PINF_ATOM_) if c0 == 0 else Poly.const(1 / c0)
+            f0 = t_min_(t_max_(inv_t, Poly.const(min_fc), ctx0, 'fmax'), max_fc, ctx0, 'fmin')
+            want = (Poly.const(PI32 * 2) * f0 * inv_poly(S.term)).scale(Fr(1, 2))
+            ok0 = len(tans) == 1 and poly_close(tans[0][1], want, ctx0)
+            why0 = 'cached_t = %s but the installed design argument is %s (expected %r)' % (float(c0), [repr(a[1]) for a in tans], want)
+        res.ob('R-DEADBAND', 'new(): dead-band reference is a sentinel or the time actually in effect', ok0, why0, where_new, key='R-DEADBAND:new-reference')
     if prop == 'C13':
         lpf0 = find_lpf(tmpl)
         if isinstance(lpf0, StructV) and lpf0.path == DF1:
